@@ -6,6 +6,7 @@ package main
 //   gosym run -func <pkg.Func> -params 1,2 run one harness instance (development)
 
 import (
+	"sync/atomic"
 	"encoding/json"
 	"flag"
 	"fmt"
@@ -196,6 +197,8 @@ type InstanceResult struct {
 	Cross     []CrossResult
 }
 
+var logSeq int64
+
 type runCfg struct {
 	unwind, maxSteps, maxPaths int
 	timeout                    time.Duration
@@ -233,7 +236,9 @@ func runInstance(sh *Shared, fn *ssa.Function, params []int, cfg runCfg) (res In
 	res = InstanceResult{Func: fn.String(), Params: params}
 	logPath := ""
 	if cfg.logDir != "" {
-		logPath = filepath.Join(cfg.logDir, fmt.Sprintf("%s-%s.smt2", fn.Name(), joinInts(params, "_")))
+		// package-qualified: harnesses of different packages may share a function name
+		q := strings.NewReplacer("/", "_", "(", "", ")", "", "*", "").Replace(fn.String())
+		logPath = filepath.Join(cfg.logDir, fmt.Sprintf("%s-%s-%d.smt2", q, joinInts(params, "_"), atomic.AddInt64(&logSeq, 1)))
 	}
 	sol, err := NewSolver(cfg.solver, cfg.solverTimeoutMs, logPath)
 	if err != nil {
